@@ -136,6 +136,13 @@ func runC02Fill(c *Ctx) {
 			for _, call := range callsTo(g, "geom.(*matrix).set") {
 				if k, ok := constInt(call.Common().Args[3]); ok {
 					sets = append(sets, setCall{call, byte(k), hc.(ssa.Instruction)})
+				} else if par, isPar := call.Common().Args[3].(*ssa.Parameter); isPar && g == h {
+					// one helper for all dimensions: the dimension is what each call site passes
+					if pi := paramIndex(h, par); pi >= 0 && pi < len(hc.Common().Args) {
+						if k, ok := constInt(hc.Common().Args[pi]); ok {
+							sets = append(sets, setCall{call, byte(k), hc.(ssa.Instruction)})
+						}
+					}
 				}
 			}
 		}
@@ -170,6 +177,25 @@ func runC02Fill(c *Ctx) {
 				continue
 			}
 			cal := staticCallee(loc)
+			if cal == nil && loc.Call.IsInvoke() && loc.Call.Method.Name() == "location" {
+				// the record reaches the helper behind an interface: its kind is the type
+				// of what the call site in extractIntersectionMatrix hands over
+				if par, isPar := loc.Call.Value.(*ssa.Parameter); isPar {
+					if hcall, isCall := s.site.(ssa.CallInstruction); isCall {
+						if pi := paramIndex(par.Parent(), par); pi >= 0 && pi < len(hcall.Common().Args) && staticCallee(hcall) == par.Parent() {
+							if mi, isMI := hcall.Common().Args[pi].(*ssa.MakeInterface); isMI {
+								if rn := namedName(mi.X.Type()); rn != wantRecv[s.ch] {
+									bad = fmt.Sprintf("dimension %q entries are taken from %s records, expected %s", string(s.ch), rn, wantRecv[s.ch])
+								}
+								if k, ok := constInt(loc.Call.Args[0]); !ok || k != wantOp {
+									bad = fmt.Sprintf("argument %d of set is the location with respect to operand %d, expected operand %d (the matrix would be transposed)", i+1, k, wantOp)
+								}
+								continue
+							}
+						}
+					}
+				}
+			}
 			if cal == nil || cal.Name() != "location" {
 				bad = "location argument is not a location() call"
 				continue
@@ -477,7 +503,9 @@ func runC14Additive(c *Ctx) {
 		for round := 0; round < 8; round++ {
 			m.Missing = map[string]bool{}
 			res, err = k4run(c.P, f, m, nil)
-			if err == nil || len(m.Missing) == 0 {
+			// (a sum that a helper computes comes back unevaluated while the model
+			// still lacks what the helper asks for)
+			if (err == nil && len(res) == 1 && res[0].kind == 2) || len(m.Missing) == 0 {
 				break
 			}
 			for k := range m.Missing {
@@ -499,7 +527,7 @@ func runC14Additive(c *Ctx) {
 		case err != nil || len(res) != 1:
 			c.Undecided(f.Pos(), FuncName(f), construct, fmt.Sprintf("%v %s", err, missingList(m)))
 		case res[0].kind != 2 || res[0].f != vals[0]+vals[1]:
-			c.Bad(f.Pos(), FuncName(f), construct, fmt.Sprintf("with two members measuring %v and %v the result is %s, additivity requires %v", vals[0], vals[1], res[0], vals[0]+vals[1]))
+			c.Bad(f.Pos(), FuncName(f), construct, fmt.Sprintf("with two members measuring %v and %v the result is %s, additivity requires %v%s", vals[0], vals[1], res[0], vals[0]+vals[1], missingNote(m)))
 		default:
 			c.OK(f.Pos(), FuncName(f), construct, "result is exactly the sum of the members' measures (2-member model)")
 		}
@@ -622,4 +650,12 @@ func runC06Position(c *Ctx) {
 		})
 	}
 	c.Check(cmpFeature && hasType && hasGeom, fu.Pos(), FuncName(fu), "required members of a Feature", "\"type\" must exist and equal \"Feature\"; \"geometry\" must exist", "Feature decoding no longer checks that \"type\" exists and equals \"Feature\" and that \"geometry\" exists")
+}
+
+// missingNote: what the model still lacked, for diagnosis of a symbolic result.
+func missingNote(m *Model) string {
+	if l := missingList(m); l != "" {
+		return " (model lacks: " + l + ")"
+	}
+	return ""
 }
